@@ -118,11 +118,12 @@ _ctx = _Ctx()
 
 
 class _Arm:
-    __slots__ = ("at", "count", "fired", "inner", "method", "doc")
+    __slots__ = ("at", "count", "fired", "inner", "method", "doc", "rep", "gap", "inners", "busy")
 
-    def __init__(self, at, method, doc):
+    def __init__(self, at, method, doc, rep=1, gap=1):
         self.at, self.count, self.fired, self.inner = at, 0, False, None
         self.method, self.doc = method, doc
+        self.rep, self.gap, self.inners, self.busy = rep, gap, [], False
 
 
 # --------------------------------------------------------------------------- instance construction
@@ -130,10 +131,18 @@ def _reenter(md):
     a = _ctx.cur
     if a is None:
         return
+    if a.busy:
+        return          # invocations made by the re-entrant call itself are not counted
     a.count += 1
-    if a.at is not None and a.count == a.at and not a.fired:
+    if a.at is not None and a.count >= a.at and (a.count - a.at) % a.gap == 0 and len(a.inners) < a.rep:
         a.fired = True
-        a.inner = call_outcome(md, a.method, a.doc, "dict")
+        a.busy = True
+        try:
+            out = call_outcome(md, a.method, a.doc, "dict")
+        finally:
+            a.busy = False
+        a.inners.append(out)
+        a.inner = out
 
 
 def install_nested(md, where):
@@ -296,7 +305,7 @@ def _gen_nested(rng, threads):
     m = rng.choice(["render", "render", "parse", "renderInline", "parseInline"])
     d = docgen.inline_source(rng) if "Inline" in m else docgen.document(rng, 2)
     return {"where": where, "inv": {"frac": rng.random() ** rng.choice([1, 2, 3])}, "method": m, "doc": d,
-            "thread": t, "call": c}
+            "thread": t, "call": c, "rep": rng.choice([1, 1, 2, 3]), "gap": rng.choice([1, 1, 2, 5])}
 
 
 def gen(rng: random.Random, tier: str) -> dict:
@@ -506,7 +515,8 @@ def execute(rec: dict, res: RunResult) -> None:
             # iteration order of a set of chain names: under another PYTHONHASHSEED the resolved step may differ
             res.events.append(["hash_order_dependent_schedule"])
     switches = _resolve(rec["switches"], t0_steps, total, fu_steps, w0, wc_steps, wc_locs) if n > 1 else []
-    budgets = [10 * (sum(solo_steps[t]) + (inner_steps if nested and nested["thread"] == t else 0)) + 50_000
+    budgets = [10 * (sum(solo_steps[t]) + (inner_steps * nested.get("rep", 1) if nested and nested["thread"] == t else 0))
+               + 50_000
                for t in range(n)]
     res.events.append(["solo_steps", solo_steps, "fu", len(fu_steps), "arm_at", arm_at])
 
@@ -520,7 +530,8 @@ def execute(rec: dict, res: RunResult) -> None:
         for c, (m, d, ek) in enumerate(threads[tid]):
             arm = None
             if nested and nested["thread"] == tid and nested["call"] == c:
-                arm = arms[(tid, c)] = _Arm(arm_at, nested["method"], nested["doc"])
+                arm = arms[(tid, c)] = _Arm(arm_at, nested["method"], nested["doc"], nested.get("rep", 1),
+                                            nested.get("gap", 1))
             _ctx.cur = arm
             sim.in_call[tid] = True
             try:
@@ -561,7 +572,9 @@ def execute(rec: dict, res: RunResult) -> None:
         res.reach("distinct_interleavings", f"{f[3]}|{f[1]}>{f[2]}")
     a = arms.get((nested["thread"], nested["call"])) if nested else None
     if a is not None and a.fired:
-        res.count("nested_reentries_fired")
+        res.count("nested_reentries_fired", len(a.inners))
+        if len(a.inners) > 1:
+            res.count("runs_with_several_reentries_in_one_call")
         res.nontrivial = True
         res.reach("nested_sites", "|".join(map(str, nested["where"])) + ">" + nested["method"])
         if nested["where"][0] == "highlight":
@@ -593,9 +606,10 @@ def execute(rec: dict, res: RunResult) -> None:
                               f"but alone it returns {str(exp)[:400]}; switches fired: {sim.fired[:4]}"
                               + (f"; nested re-entry fired={a.fired}" if a is not None else ""), site)
                 return
-    if a is not None and a.fired and a.inner != inner_solo:
+    bad_inner = next((x for x in (a.inners if a is not None else []) if x != inner_solo), None)
+    if bad_inner is not None:
         res.fail("NESTED_DIFF", f"re-entrant {nested['method']}({nested['doc']!r}) from {nested['where']} "
-                                f"(invocation {arm_at}) returned {str(a.inner)[:400]} but alone it returns "
+                                f"(invocation {arm_at}, {len(a.inners)} re-entries) returned {str(bad_inner)[:400]} but alone it returns "
                                 f"{str(inner_solo)[:400]}", site)
         return
 
@@ -743,6 +757,10 @@ class C13(Engine):
             for simple in docgen.LADDER:
                 if len(simple) < len(nn["doc"]) and "Inline" not in nn["method"]:
                     yield {**rec, "nested": {**nn, "doc": simple}}
+            if nn.get("rep", 1) > 1:
+                yield {**rec, "nested": {**nn, "rep": nn["rep"] - 1}}
+            if nn.get("gap", 1) > 1:
+                yield {**rec, "nested": {**nn, "gap": 1}}
             if nn["inv"].get("abs", 1) > 1:
                 yield {**rec, "nested": {**nn, "inv": {"abs": 1}}}
                 yield {**rec, "nested": {**nn, "inv": {"abs": nn["inv"]["abs"] // 2}}}
